@@ -1,10 +1,24 @@
 //go:build verif
 
 // Fact extractor: regenerates Lean data from tink-go's current source (go/parser + go/types).
-//   extract enumtables -out F.lean   — every `switch`-table conversion function of the per-key-type
-//                                      protoserialization.go files as a list of (case, result) pairs
-// Run with cwd=/repo. It refuses (exit 2) rather than guesses when a function has the table shape but a
-// non-constant cell.
+//
+//	extract enumtables -out F.lean   — every `switch`-table conversion function of the per-key-type
+//	                                   protoserialization.go files as a list of (case, result) pairs
+//	extract slicefacts -out F.lean   — C19: per function, every write through / retention / return of a []byte parameter
+//	                                   (taint follows slicing, bytes.Trim*/Split*/Cut*/Fields, slices.Clip/Grow,
+//	                                   bytes.NewBuffer/NewReader, append(p[:k], …)), accessors returning a field, and results
+//	                                   that alias a pooled / global / receiver-held buffer (return-internal)
+//	extract mutfacts -out F.lean     — C18: stores through receivers, mutator calls on receiver-held stateful objects, stores to
+//	                                   package-level variables (also of other packages); package-level variables of sync.Pool /
+//	                                   sync.Map / mutex / atomic / channel type (global-var) and every method call on a
+//	                                   package-level variable (global-call), both owned by the variable; in-place rewrites of
+//	                                   map / slice fields (recv-inplace-write) and, for those fields, every hand-out
+//	                                   (recv-field-escape)
+//
+// Run with cwd=/repo and the module's toolchain (GOFLAGS=-mod=mod GOPROXY=off, GOTOOLCHAIN unset: with GOTOOLCHAIN=local the
+// source importer cannot load the module's packages, go/types then knows standard-library types only and the type-dependent
+// facts — global-var, global-call, map/slice fields — silently disappear). enumtables refuses (exit 2) rather than guesses
+// when a function has the table shape but a non-constant cell.
 package main
 
 import (
@@ -27,9 +41,9 @@ type cell struct {
 }
 
 type table struct {
-	pkg, fn         string
-	paramTy, resTy  string
-	cells           []cell
+	pkg, fn        string
+	paramTy, resTy string
+	cells          []cell
 }
 
 func die(f string, a ...any) {
@@ -238,7 +252,10 @@ func main() {
 // slicefacts / mutfacts: syntactic facts about writes through []byte parameters, retention of
 // parameter slices, exposure of field slices (C19) and post-construction writes through receivers (C18).
 
-type fact struct{ pkg, fn, kind, what string }
+// owner: explicit owner (name of the package-level variable for global-var / global-call facts); "" = derived from fn
+type fact struct{ pkg, fn, kind, what, owner string }
+
+func mkFact(pkg, fn, kind, what string) fact { return fact{pkg: pkg, fn: fn, kind: kind, what: what} }
 
 func rootIdent(e ast.Expr) *ast.Ident {
 	for {
@@ -372,7 +389,10 @@ func emitFacts(out, ns, doc string, facts []fact, npk int, withOwner bool) {
 		if a.kind != b.kind {
 			return a.kind < b.kind
 		}
-		return a.what < b.what
+		if a.what != b.what {
+			return a.what < b.what
+		}
+		return a.owner < b.owner
 	})
 	var sb strings.Builder
 	sb.WriteString("/- GENERATED by /verif/go/harness/extract — do not edit; regenerated on every check run.\n   " + doc + " -/\n")
@@ -397,9 +417,12 @@ func emitFacts(out, ns, doc string, facts []fact, npk int, withOwner bool) {
 		first = false
 		prev = f
 		if withOwner {
-			owner := f.fn
-			if i := strings.Index(owner, "."); i >= 0 {
-				owner = owner[:i]
+			owner := f.owner
+			if owner == "" {
+				owner = f.fn
+				if i := strings.Index(owner, "."); i >= 0 {
+					owner = owner[:i]
+				}
 			}
 			sb.WriteString(fmt.Sprintf("  ⟨%q, %q, %q, %q, %q⟩", f.pkg, f.fn, f.kind, f.what, owner))
 		} else {
@@ -413,10 +436,156 @@ func emitFacts(out, ns, doc string, facts []fact, npk int, withOwner bool) {
 	fmt.Printf("%s: %d packages, %d facts\n", ns, npk, len(facts))
 }
 
+// viewFuncs: functions of package bytes / slices whose result is (or holds) a sub-slice of their first argument:
+// taint flows through them exactly as through a slicing expression.
+var viewFuncs = map[string]bool{"TrimLeft": true, "TrimRight": true, "Trim": true, "TrimPrefix": true, "TrimSuffix": true, "TrimSpace": true,
+	"TrimFunc": true, "TrimLeftFunc": true, "TrimRightFunc": true, "Fields": true, "FieldsFunc": true, "Split": true, "SplitN": true,
+	"SplitAfter": true, "SplitAfterN": true, "Cut": true, "CutPrefix": true, "CutSuffix": true, "Clip": true, "Grow": true,
+	"NewBuffer": true, "NewReader": true}
+
+func exprString(e ast.Expr) string {
+	switch x := e.(type) {
+	case nil:
+		return ""
+	case *ast.Ident:
+		return x.Name
+	case *ast.BasicLit:
+		return x.Value
+	case *ast.SelectorExpr:
+		return exprString(x.X) + "." + x.Sel.Name
+	case *ast.ParenExpr:
+		return "(" + exprString(x.X) + ")"
+	case *ast.StarExpr:
+		return "*" + exprString(x.X)
+	case *ast.UnaryExpr:
+		return x.Op.String() + exprString(x.X)
+	case *ast.BinaryExpr:
+		return exprString(x.X) + x.Op.String() + exprString(x.Y)
+	case *ast.IndexExpr:
+		return exprString(x.X) + "[" + exprString(x.Index) + "]"
+	case *ast.CallExpr:
+		as := make([]string, len(x.Args))
+		for i, a := range x.Args {
+			as[i] = exprString(a)
+		}
+		return exprString(x.Fun) + "(" + strings.Join(as, ",") + ")"
+	case *ast.SliceExpr:
+		r := exprString(x.X) + "[" + exprString(x.Low) + ":" + exprString(x.High)
+		if x.Slice3 {
+			r += ":" + exprString(x.Max)
+		}
+		return r + "]"
+	case *ast.TypeAssertExpr:
+		return exprString(x.X) + ".(" + exprString(x.Type) + ")"
+	}
+	return "?"
+}
+
+// fullSlice3: x[a:n:n] — an append to it always reallocates (it is a copy)
+func fullSlice3(e ast.Expr) bool {
+	se, ok := e.(*ast.SliceExpr)
+	return ok && se.Slice3 && se.High != nil && se.Max != nil && exprString(se.High) == exprString(se.Max)
+}
+
+func pkgLevelVars(files []*ast.File, info *types.Info) map[types.Object]bool {
+	globals := map[types.Object]bool{}
+	for _, f := range files {
+		for _, d := range f.Decls {
+			gd, ok := d.(*ast.GenDecl)
+			if !ok || gd.Tok != token.VAR {
+				continue
+			}
+			for _, sp := range gd.Specs {
+				for _, n := range sp.(*ast.ValueSpec).Names {
+					if o := info.Defs[n]; o != nil && n.Name != "_" {
+						globals[o] = true
+					}
+				}
+			}
+		}
+	}
+	return globals
+}
+
+func isBytesBuffer(t types.Type) bool {
+	if t == nil {
+		return false
+	}
+	s := t.String()
+	return s == "bytes.Buffer" || s == "*bytes.Buffer"
+}
+
+// byteBacked: []byte, [n]byte, *[]byte, *[n]byte, bytes.Buffer, *bytes.Buffer
+func byteBacked(t types.Type) bool {
+	if t == nil {
+		return false
+	}
+	if isBytesBuffer(t) || isByteSlice(t) {
+		return true
+	}
+	u := t.Underlying()
+	if p, ok := u.(*types.Pointer); ok {
+		u = p.Elem().Underlying()
+		if isByteSlice(p.Elem()) {
+			return true
+		}
+	}
+	if a, ok := u.(*types.Array); ok {
+		b, ok := a.Elem().Underlying().(*types.Basic)
+		return ok && b.Kind() == types.Uint8
+	}
+	return false
+}
+
+func stripToBase(e ast.Expr) ast.Expr {
+	for {
+		switch x := e.(type) {
+		case *ast.ParenExpr:
+			e = x.X
+		case *ast.StarExpr:
+			e = x.X
+		case *ast.TypeAssertExpr:
+			e = x.X
+		case *ast.UnaryExpr:
+			if x.Op != token.AND {
+				return e
+			}
+			e = x.X
+		case *ast.SliceExpr:
+			e = x.X
+		case *ast.IndexExpr:
+			e = x.X
+		default:
+			return e
+		}
+	}
+}
+
 // sliceFacts (C19)
 func sliceFacts(out string) {
 	var facts []fact
 	npk := loadAll(func(dir string, fset *token.FileSet, files []*ast.File, info *types.Info) {
+		globals := pkgLevelVars(files, info)
+		isGlobal := func(id *ast.Ident) bool {
+			o := info.Uses[id]
+			return o != nil && globals[o]
+		}
+		isPkg := func(e ast.Expr, paths ...string) bool {
+			id, ok := e.(*ast.Ident)
+			if !ok {
+				return false
+			}
+			pn, ok := info.Uses[id].(*types.PkgName)
+			if !ok {
+				return false
+			}
+			for _, p := range paths {
+				if pn.Imported().Path() == p {
+					return true
+				}
+			}
+			return false
+		}
 		for _, f := range files {
 			for _, d := range f.Decls {
 				fd, ok := d.(*ast.FuncDecl)
@@ -442,6 +611,8 @@ func sliceFacts(out string) {
 				fn := funcName(fd)
 				// locals that alias a parameter by plain (re)slicing: x := p / x := p[a:b]
 				alias := map[string]string{}
+				// locals that are a bytes.Buffer built over a parameter: buf := bytes.NewBuffer(p)
+				bufOver := map[string]string{}
 				// a parameter that is reassigned from a call (p = bytes.Clone(p), p = slices.Clone(p), …) no longer
 				// denotes caller memory (flow-insensitive: any such reassignment in the body)
 				ast.Inspect(fd.Body, func(n ast.Node) bool {
@@ -470,7 +641,26 @@ func sliceFacts(out string) {
 						}
 					}
 				}
-				isParam := func(e ast.Expr) (string, bool) {
+				var isParam func(e ast.Expr) (string, bool)
+				// viewCall: bytes.TrimLeft(p, …), bytes.Split(p, …), slices.Clip(p), bytes.NewBuffer(p), bytes.NewReader(p):
+				// the result is (or holds) a sub-slice of p;  append(p[:0], …) may be one (it is when the result fits),
+				// append(p[:0:0], …) / append(p[:n:n], …) is a copy
+				viewCall := func(ce *ast.CallExpr) (string, bool) {
+					if len(ce.Args) == 0 {
+						return "", false
+					}
+					if id, ok := ce.Fun.(*ast.Ident); ok && id.Name == "append" {
+						if fullSlice3(ce.Args[0]) {
+							return "", false
+						}
+						return isParam(ce.Args[0])
+					}
+					if sel, ok := ce.Fun.(*ast.SelectorExpr); ok && viewFuncs[sel.Sel.Name] && isPkg(sel.X, "bytes", "slices") {
+						return isParam(ce.Args[0])
+					}
+					return "", false
+				}
+				isParam = func(e ast.Expr) (string, bool) {
 					// opts.Field / opts.Field[a:b] with opts a parameter and the selected value a []byte
 					inner := e
 					for {
@@ -482,7 +672,17 @@ func sliceFacts(out string) {
 							inner = pe.X
 							continue
 						}
+						if ie, ok := inner.(*ast.IndexExpr); ok {
+							// element of a [][]byte view: bytes.Split(p, sep)[0]
+							if _, isCall := ie.X.(*ast.CallExpr); isCall {
+								inner = ie.X
+								continue
+							}
+						}
 						break
+					}
+					if ce, ok := inner.(*ast.CallExpr); ok {
+						return viewCall(ce)
 					}
 					if sel, ok := inner.(*ast.SelectorExpr); ok {
 						if id, ok := sel.X.(*ast.Ident); ok && allParams[id.Name] && (recv == "" || id.Name != recv) {
@@ -503,34 +703,153 @@ func sliceFacts(out string) {
 					}
 					return "", false
 				}
+				// viewExpr: an expression that may carry caller memory by value: identifier, slicing, field selection, or one
+				// of the slice-preserving calls
+				viewExpr := func(e ast.Expr) (string, bool) {
+					switch r := e.(type) {
+					case *ast.Ident, *ast.SliceExpr, *ast.SelectorExpr:
+						return isParam(r)
+					case *ast.CallExpr:
+						return viewCall(r)
+					case *ast.IndexExpr:
+						if tv, ok := info.Types[e]; ok && isByteSlice(tv.Type) {
+							return isParam(r)
+						}
+					}
+					return "", false
+				}
+				// objects that are library state or shared between calls: locals bound to a value taken from a package-level
+				// variable (pool.Get(), global, &global) or to a receiver field
+				internal := map[string]string{}
+				originOf := func(e ast.Expr) (string, bool) {
+					b := stripToBase(e)
+					switch x := b.(type) {
+					case *ast.CallExpr:
+						if sel, ok := x.Fun.(*ast.SelectorExpr); ok {
+							if id, ok := stripToBase(sel.X).(*ast.Ident); ok && isGlobal(id) {
+								return id.Name + "." + sel.Sel.Name + "()", true
+							}
+							// r.pool.Get(): a container kept in the receiver
+							if fs, ok := stripToBase(sel.X).(*ast.SelectorExpr); ok && recv != "" && (sel.Sel.Name == "Get" || sel.Sel.Name == "Load") {
+								if id, ok := fs.X.(*ast.Ident); ok && id.Name == recv {
+									return recv + "." + fs.Sel.Name + "." + sel.Sel.Name + "()", true
+								}
+							}
+						}
+					case *ast.Ident:
+						if isGlobal(x) {
+							return x.Name, true
+						}
+						if o, ok := internal[x.Name]; ok {
+							return o, true
+						}
+					case *ast.SelectorExpr:
+						if id, ok := x.X.(*ast.Ident); ok && recv != "" && id.Name == recv {
+							return recv + "." + x.Sel.Name, true
+						}
+					}
+					return "", false
+				}
+				ast.Inspect(fd.Body, func(n ast.Node) bool {
+					as, ok := n.(*ast.AssignStmt)
+					if !ok || len(as.Lhs) < 1 || len(as.Rhs) < 1 {
+						return true
+					}
+					for i, lhs := range as.Lhs {
+						id, ok := lhs.(*ast.Ident)
+						if !ok || id.Name == "_" {
+							continue
+						}
+						var rhs ast.Expr
+						if len(as.Lhs) == len(as.Rhs) {
+							rhs = as.Rhs[i]
+						} else if i == 0 {
+							rhs = as.Rhs[0] // v, ok := pool.Get().(*T)
+						} else {
+							continue
+						}
+						var t types.Type
+						if o := info.Defs[id]; o != nil {
+							t = o.Type()
+						} else if o := info.Uses[id]; o != nil {
+							t = o.Type()
+						}
+						if !byteBacked(t) {
+							continue
+						}
+						if _, isSel := stripToBase(rhs).(*ast.SelectorExpr); isSel {
+							// a copy of a receiver's array field (x := r.arr) is a value, not a view
+							if _, isArr := t.Underlying().(*types.Array); isArr {
+								continue
+							}
+							if isBytesBuffer(t) && t.String() == "bytes.Buffer" {
+								continue
+							}
+						}
+						if o, ok := originOf(rhs); ok {
+							internal[id.Name] = o
+						}
+					}
+					return true
+				})
 				ast.Inspect(fd.Body, func(n ast.Node) bool {
 					switch x := n.(type) {
+					case *ast.RangeStmt:
+						// for _, part := range bytes.Split(p, sep)
+						if id, ok := x.Value.(*ast.Ident); ok && id.Name != "_" {
+							if tv, ok := info.Types[x.X]; ok && tv.Type != nil {
+								if sl, ok := tv.Type.Underlying().(*types.Slice); ok && isByteSlice(sl.Elem()) {
+									if p, ok := viewExpr(x.X); ok {
+										alias[id.Name] = p
+									}
+								}
+							}
+						}
 					case *ast.AssignStmt:
+						// before, after, found := bytes.Cut(p, sep)
+						if len(x.Rhs) == 1 && len(x.Lhs) > 1 {
+							if ce, ok := x.Rhs[0].(*ast.CallExpr); ok {
+								if p, ok := viewCall(ce); ok {
+									for _, lhs := range x.Lhs {
+										if id, ok := lhs.(*ast.Ident); ok && id.Name != "_" && !params[id.Name] {
+											var t types.Type
+											if o := info.Defs[id]; o != nil {
+												t = o.Type()
+											} else if o := info.Uses[id]; o != nil {
+												t = o.Type()
+											}
+											if isByteSlice(t) {
+												alias[id.Name] = p
+											}
+										}
+									}
+								}
+							}
+						}
 						for i, lhs := range x.Lhs {
 							// element store p[i] = v, p[i] op= v
 							if ix, ok := lhs.(*ast.IndexExpr); ok {
 								if p, ok := isParam(ix.X); ok {
-									facts = append(facts, fact{dir, fn, "store-to-param", p})
+									facts = append(facts, mkFact(dir, fn, "store-to-param", p))
 								}
 							}
 							if i < len(x.Rhs) && len(x.Lhs) == len(x.Rhs) {
 								rhs := x.Rhs[i]
 								// alias tracking
 								if id, ok := lhs.(*ast.Ident); ok {
-									switch r := rhs.(type) {
-									case *ast.Ident, *ast.SliceExpr, *ast.SelectorExpr:
-										if p, ok := isParam(r); ok && !params[id.Name] {
-											alias[id.Name] = p
+									if p, ok := viewExpr(rhs); ok && !params[id.Name] {
+										alias[id.Name] = p
+										if ce, ok := rhs.(*ast.CallExpr); ok {
+											if sel, ok := ce.Fun.(*ast.SelectorExpr); ok && sel.Sel.Name == "NewBuffer" {
+												bufOver[id.Name] = p
+											}
 										}
 									}
 								}
 								// retention: x.f = p  (direct, without Clone)
 								if sel, ok := lhs.(*ast.SelectorExpr); ok {
-									switch r := rhs.(type) {
-									case *ast.Ident, *ast.SliceExpr, *ast.SelectorExpr:
-										if p, ok := isParam(r); ok {
-											facts = append(facts, fact{dir, fn, "retain-param", exprName(sel.X) + "." + sel.Sel.Name + "=" + p})
-										}
+									if p, ok := viewExpr(rhs); ok {
+										facts = append(facts, mkFact(dir, fn, "retain-param", exprName(sel.X)+"."+sel.Sel.Name+"="+p))
 									}
 								}
 							}
@@ -540,28 +859,32 @@ func sliceFacts(out string) {
 							switch id.Name {
 							case "append":
 								if p, ok := isParam(x.Args[0]); ok {
-									// append(p[:0:0], …) cannot write p
-									if se, ok := x.Args[0].(*ast.SliceExpr); ok && se.Slice3 {
+									// append(p[:0:0], …) / append(p[:n:n], …) cannot write p
+									if fullSlice3(x.Args[0]) {
 										break
 									}
-									facts = append(facts, fact{dir, fn, "append-to-param", p})
+									facts = append(facts, mkFact(dir, fn, "append-to-param", p))
 								}
 							case "copy":
 								if p, ok := isParam(x.Args[0]); ok {
-									facts = append(facts, fact{dir, fn, "copy-into-param", p})
+									facts = append(facts, mkFact(dir, fn, "copy-into-param", p))
+								}
+							case "clear":
+								if p, ok := isParam(x.Args[0]); ok {
+									facts = append(facts, mkFact(dir, fn, "store-to-param", p))
 								}
 							}
 						}
 						if sel, ok := x.Fun.(*ast.SelectorExpr); ok && len(x.Args) > 0 {
 							nm := sel.Sel.Name
-							// handing a parameter slice to a container that outlives the call (sync.Map and friends)
-							if nm == "Store" || nm == "LoadOrStore" || nm == "Swap" || nm == "CompareAndSwap" {
+							// handing a parameter slice to a container that outlives the call (sync.Map, sync.Pool and friends)
+							if nm == "Store" || nm == "LoadOrStore" || nm == "Swap" || nm == "CompareAndSwap" || nm == "Put" {
 								for _, a := range x.Args {
-									switch r := a.(type) {
-									case *ast.Ident, *ast.SliceExpr, *ast.SelectorExpr:
-										if p, ok := isParam(r); ok {
-											facts = append(facts, fact{dir, fn, "escape-param", exprName(sel.X) + "." + nm + "(" + p + ")"})
-										}
+									if ue, ok := a.(*ast.UnaryExpr); ok && ue.Op == token.AND {
+										a = ue.X
+									}
+									if p, ok := viewExpr(a); ok {
+										facts = append(facts, mkFact(dir, fn, "escape-param", exprName(sel.X)+"."+nm+"("+p+")"))
 									}
 								}
 							}
@@ -573,14 +896,22 @@ func sliceFacts(out string) {
 								}
 								if idx < len(x.Args) {
 									if p, ok := isParam(x.Args[idx]); ok {
-										facts = append(facts, fact{dir, fn, "write-into-param", nm + ":" + p})
+										facts = append(facts, mkFact(dir, fn, "write-into-param", nm+":"+p))
 									}
 								}
 							}
 							// Seal/Open(dst, …) with dst = p[:0] style reuse of the caller's buffer
 							if (nm == "Seal" || nm == "Open") && len(x.Args) >= 1 {
 								if p, ok := isParam(x.Args[0]); ok {
-									facts = append(facts, fact{dir, fn, "aead-dst-param", nm + ":" + p})
+									facts = append(facts, mkFact(dir, fn, "aead-dst-param", nm+":"+p))
+								}
+							}
+						}
+						// buf := bytes.NewBuffer(p); buf.Write(…) appends into p's spare capacity
+						if sel, ok := x.Fun.(*ast.SelectorExpr); ok {
+							if id, ok := sel.X.(*ast.Ident); ok {
+								if p, ok := bufOver[id.Name]; ok && strings.HasPrefix(sel.Sel.Name, "Write") {
+									facts = append(facts, mkFact(dir, fn, "append-to-param", p+" (bytes.Buffer."+sel.Sel.Name+")"))
 								}
 							}
 						}
@@ -589,19 +920,13 @@ func sliceFacts(out string) {
 							kv, ok := el.(*ast.KeyValueExpr)
 							if !ok {
 								// unkeyed element: T{p, …} / [2][]byte{p, x}
-								switch r := el.(type) {
-								case *ast.Ident, *ast.SliceExpr, *ast.SelectorExpr:
-									if p, ok := isParam(r); ok {
-										facts = append(facts, fact{dir, fn, "retain-param", fmt.Sprintf("%s{#%d}=%s", exprName(x.Type), i, p)})
-									}
+								if p, ok := viewExpr(el); ok {
+									facts = append(facts, mkFact(dir, fn, "retain-param", fmt.Sprintf("%s{#%d}=%s", exprName(x.Type), i, p)))
 								}
 								continue
 							}
-							switch r := kv.Value.(type) {
-							case *ast.Ident, *ast.SliceExpr, *ast.SelectorExpr:
-								if p, ok := isParam(r); ok {
-									facts = append(facts, fact{dir, fn, "retain-param", exprName(x.Type) + "{" + exprName(kv.Key) + "}=" + p})
-								}
+							if p, ok := viewExpr(kv.Value); ok {
+								facts = append(facts, mkFact(dir, fn, "retain-param", exprName(x.Type)+"{"+exprName(kv.Key)+"}="+p))
 							}
 						}
 					case *ast.ReturnStmt:
@@ -610,16 +935,57 @@ func sliceFacts(out string) {
 							if sel, ok := r.(*ast.SelectorExpr); ok && recv != "" {
 								if id, ok := sel.X.(*ast.Ident); ok && id.Name == recv {
 									if tv, ok := info.Types[r]; ok && isByteSlice(tv.Type) {
-										facts = append(facts, fact{dir, fn, "return-field", sel.Sel.Name})
+										facts = append(facts, mkFact(dir, fn, "return-field", sel.Sel.Name))
 									}
 								}
 							}
 							// returning the parameter itself (result aliases input)
 							switch rr := r.(type) {
-							case *ast.Ident, *ast.SliceExpr:
-								if p, ok := isParam(rr); ok {
-									facts = append(facts, fact{dir, fn, "return-param", p})
+							case *ast.Ident, *ast.SliceExpr, *ast.CallExpr:
+								if p, ok := viewExpr(rr); ok {
+									if _, isCall := rr.(*ast.CallExpr); isCall {
+										p += " (via " + exprString(rr.(*ast.CallExpr).Fun) + ")"
+									}
+									facts = append(facts, mkFact(dir, fn, "return-param", p))
 								}
+							}
+							// returning memory that stays reachable by the library: x.Bytes() of a bytes.Buffer, or a slice of a
+							// buffer / array, that came from a package-level variable (sync.Pool.Get(), global) or is a receiver field
+							if tv, ok := info.Types[r]; !ok || !isByteSlice(tv.Type) {
+								continue
+							}
+							inner := r
+							for {
+								if se, ok := inner.(*ast.SliceExpr); ok {
+									inner = se.X
+									continue
+								}
+								if pe, ok := inner.(*ast.ParenExpr); ok {
+									inner = pe.X
+									continue
+								}
+								break
+							}
+							if ce, ok := inner.(*ast.CallExpr); ok {
+								if sel, ok := ce.Fun.(*ast.SelectorExpr); ok && (sel.Sel.Name == "Bytes" || sel.Sel.Name == "Next" || sel.Sel.Name == "AvailableBuffer") {
+									if tv, ok := info.Types[sel.X]; ok && isBytesBuffer(tv.Type) {
+										if o, ok := originOf(sel.X); ok {
+											facts = append(facts, mkFact(dir, fn, "return-internal", exprString(r)+" <- "+o))
+										}
+									}
+								}
+								continue
+							}
+							if _, direct := r.(*ast.SelectorExpr); direct {
+								continue // return recv.f: the return-field fact above
+							}
+							if id, ok := r.(*ast.Ident); ok {
+								if _, isParamView := isParam(id); isParamView {
+									continue
+								}
+							}
+							if o, ok := originOf(inner); ok {
+								facts = append(facts, mkFact(dir, fn, "return-internal", exprString(r)+" <- "+o))
 							}
 						}
 					}
@@ -630,6 +996,95 @@ func sliceFacts(out string) {
 	})
 	emitFacts(out, "TinkVerif.Gen.SliceFacts", "Syntactic facts about []byte parameters: writes through them, retention, exposure (C19).", facts, npk, false)
 }
+
+// syncCategory: "" unless t is or contains (through struct fields, pointers, arrays) a type of package sync / sync/atomic
+// or a channel.
+func syncCategory(t types.Type, seen map[types.Type]bool, depth int) string {
+	if t == nil || seen[t] || depth > 6 {
+		return ""
+	}
+	seen[t] = true
+	if n, ok := t.(*types.Named); ok && n.Obj() != nil && n.Obj().Pkg() != nil {
+		switch n.Obj().Pkg().Path() {
+		case "sync":
+			if n.Obj().Name() == "Pool" {
+				return "pool"
+			}
+			if n.Obj().Name() == "Map" {
+				return "syncmap"
+			}
+			return "lock"
+		case "sync/atomic":
+			return "atomic"
+		}
+	}
+	switch u := t.Underlying().(type) {
+	case *types.Chan:
+		return "chan"
+	case *types.Pointer:
+		return syncCategory(u.Elem(), seen, depth+1)
+	case *types.Array:
+		return syncCategory(u.Elem(), seen, depth+1)
+	case *types.Struct:
+		best := ""
+		for i := 0; i < u.NumFields(); i++ {
+			if c := syncCategory(u.Field(i).Type(), seen, depth+1); c != "" {
+				if c == "pool" {
+					return c
+				}
+				if best == "" {
+					best = c
+				}
+			}
+		}
+		return best
+	}
+	return ""
+}
+
+func shortType(t types.Type) string {
+	return types.TypeString(t, func(p *types.Package) string {
+		path := p.Path()
+		const pfx = "github.com/tink-crypto/tink-go/v2/"
+		return strings.TrimPrefix(path, pfx)
+	})
+}
+
+// pkgVarOf: the package-level variable of another package that the store target otherpkg.Var… denotes
+func pkgVarOf(info *types.Info, lhs ast.Expr) *types.Var {
+	for {
+		switch x := lhs.(type) {
+		case *ast.SelectorExpr:
+			if id, ok := x.X.(*ast.Ident); ok {
+				if _, isPkg := info.Uses[id].(*types.PkgName); isPkg {
+					if v, ok := info.Uses[x.Sel].(*types.Var); ok && v.Pkg() != nil && v.Parent() == v.Pkg().Scope() {
+						return v
+					}
+					return nil
+				}
+			}
+			lhs = x.X
+		case *ast.IndexExpr:
+			lhs = x.X
+		case *ast.SliceExpr:
+			lhs = x.X
+		case *ast.ParenExpr:
+			lhs = x.X
+		case *ast.StarExpr:
+			lhs = x.X
+		default:
+			return nil
+		}
+	}
+}
+
+// inPlaceFuncs: functions of packages maps / slices / sort that rewrite the elements of their first argument
+var inPlaceFuncs = map[string]bool{"Copy": true, "DeleteFunc": true, "Delete": true, "Insert": true, "Replace": true, "Reverse": true, "Sort": true,
+	"SortFunc": true, "SortStableFunc": true, "Compact": true, "CompactFunc": true, "Slice": true, "SliceStable": true, "Stable": true, "Strings": true, "Ints": true}
+
+// readOnlyFuncs: callees that do not keep their argument (the result is a copy or a scalar)
+var readOnlyFuncs = map[string]bool{"len": true, "cap": true, "Clone": true, "Equal": true, "Compare": true, "Contains": true, "Index": true,
+	"ConstantTimeCompare": true, "Keys": true, "Values": true, "EncodeToString": true, "Sprintf": true, "Errorf": true, "min": true, "max": true}
 
 // mutFacts (C18): writes through method receivers and to package-level variables.
 func mutFacts(out string) {
@@ -643,22 +1098,64 @@ func mutFacts(out string) {
 		"BitLen": true, "IsInt64": true, "Int64": true, "Uint64": true, "FillBytes": true, "Text": true, "Bit": true, "ProbablyPrime": true}
 	npk := loadAll(func(dir string, fset *token.FileSet, files []*ast.File, info *types.Info) {
 		// package-level variables
-		globals := map[types.Object]bool{}
+		globals := pkgLevelVars(files, info)
+		// every package-level variable whose type is (or contains) a synchronisation / recycling container: sync.Pool,
+		// sync.Map, mutexes, sync.Once, atomics, channels — state that is shared between all users of the package by design
+		for o := range globals {
+			if cat := syncCategory(o.Type(), map[types.Type]bool{}, 0); cat != "" {
+				facts = append(facts, fact{pkg: dir, fn: o.Name(), kind: "global-var", what: cat + " : " + shortType(o.Type()), owner: o.Name()})
+			}
+		}
+		// the same for struct fields of the package's own types (a pool / cache / lock kept per object is shared by every
+		// goroutine that uses the object)
 		for _, f := range files {
 			for _, d := range f.Decls {
 				gd, ok := d.(*ast.GenDecl)
-				if !ok || gd.Tok != token.VAR {
+				if !ok || gd.Tok != token.TYPE {
 					continue
 				}
 				for _, sp := range gd.Specs {
-					for _, n := range sp.(*ast.ValueSpec).Names {
-						if o := info.Defs[n]; o != nil {
-							globals[o] = true
+					ts := sp.(*ast.TypeSpec)
+					st, ok := ts.Type.(*ast.StructType)
+					if !ok || st.Fields == nil {
+						continue
+					}
+					for _, fld := range st.Fields.List {
+						tv, ok := info.Types[fld.Type]
+						if !ok || tv.Type == nil {
+							continue
+						}
+						// the field's own type (or pointer / array of it) is a sync / atomic type or a channel: structs of other
+						// packages are not searched (every proto message embeds a mutex)
+						cat := syncCategory(tv.Type, map[types.Type]bool{}, 6)
+						if cat == "" {
+							if p, ok := tv.Type.Underlying().(*types.Pointer); ok {
+								cat = syncCategory(p.Elem(), map[types.Type]bool{}, 6)
+							} else if a, ok := tv.Type.Underlying().(*types.Array); ok {
+								cat = syncCategory(a.Elem(), map[types.Type]bool{}, 6)
+							}
+						}
+						if cat == "" {
+							continue
+						}
+						names := []string{exprString(fld.Type)}
+						if len(fld.Names) > 0 {
+							names = names[:0]
+							for _, n := range fld.Names {
+								names = append(names, n.Name)
+							}
+						}
+						for _, n := range names {
+							facts = append(facts, fact{pkg: dir, fn: ts.Name.Name, kind: "field-var", what: n + " : " + cat + " : " + shortType(tv.Type), owner: ts.Name.Name})
 						}
 					}
 				}
 			}
 		}
+		// fields (map / slice typed) of receiver types that some method writes in place: the facts about where those
+		// fields are handed to other code (recv-field-escape) are emitted for these only
+		inPlace := map[string]bool{} // "Type.field"
+		var escapes []fact
 		for _, f := range files {
 			for _, d := range f.Decls {
 				fd, ok := d.(*ast.FuncDecl)
@@ -707,7 +1204,7 @@ func mutFacts(out string) {
 				lhsFact := func(lhs ast.Expr) {
 					if recv != "" {
 						if id, fld := rootSel(lhs); id != nil && id.Name == recv {
-							facts = append(facts, fact{dir, fn, "recv-store", fld})
+							facts = append(facts, mkFact(dir, fn, "recv-store", fld))
 							return
 						}
 						// element / field store through an alias of a receiver-held object (not rebinding the alias itself)
@@ -718,7 +1215,7 @@ func mutFacts(out string) {
 							}
 							if root != nil {
 								if fld, ok := alias[root.Name]; ok {
-									facts = append(facts, fact{dir, fn, "recv-store", fld + " (via " + root.Name + ")"})
+									facts = append(facts, mkFact(dir, fn, "recv-store", fld+" (via "+root.Name+")"))
 									return
 								}
 							}
@@ -739,14 +1236,85 @@ func mutFacts(out string) {
 						}
 						if root != nil {
 							if o := info.Uses[root]; o != nil && globals[o] {
-								facts = append(facts, fact{dir, fn, "global-store", root.Name})
+								facts = append(facts, mkFact(dir, fn, "global-store", root.Name))
+							} else if _, isPkg := o.(*types.PkgName); isPkg {
+								// otherpkg.Var = v / otherpkg.Var[k] = v
+								if v := pkgVarOf(info, lhs); v != nil {
+									facts = append(facts, mkFact(dir, fn, "global-store", root.Name+"."+v.Name()))
+								}
 							}
 						}
+					}
+				}
+				owner := fn
+				if i := strings.Index(owner, "."); i >= 0 {
+					owner = owner[:i]
+				}
+				// fieldOf: (field, true) when e is r.f / r.f[a:b] / (r.f) with r the receiver, or a local alias of one, and the
+				// value is a map or a slice
+				fieldOf := func(e ast.Expr, allowSlicing bool) (string, bool) {
+					if recv == "" {
+						return "", false
+					}
+					tv, ok := info.Types[e]
+					if !ok || tv.Type == nil {
+						return "", false
+					}
+					switch tv.Type.Underlying().(type) {
+					case *types.Map, *types.Slice:
+					default:
+						return "", false
+					}
+					inner := e
+					for {
+						if pe, ok := inner.(*ast.ParenExpr); ok {
+							inner = pe.X
+							continue
+						}
+						if se, ok := inner.(*ast.SliceExpr); ok && allowSlicing {
+							inner = se.X
+							continue
+						}
+						break
+					}
+					switch x := inner.(type) {
+					case *ast.SelectorExpr:
+						if id, ok := x.X.(*ast.Ident); ok && id.Name == recv {
+							return x.Sel.Name, true
+						}
+					case *ast.Ident:
+						if fld, ok := alias[x.Name]; ok {
+							return fld, true
+						}
+					}
+					return "", false
+				}
+				inPlaceWrite := func(e ast.Expr, form string) {
+					if fld, ok := fieldOf(e, true); ok {
+						inPlace[owner+"."+fld] = true
+						facts = append(facts, mkFact(dir, fn, "recv-inplace-write", fld+" : "+form))
+					}
+				}
+				escape := func(e ast.Expr, form string) {
+					if fld, ok := fieldOf(e, true); ok {
+						escapes = append(escapes, fact{pkg: dir, fn: fn, kind: "recv-field-escape", what: fld + " : " + form, owner: owner + "." + fld})
 					}
 				}
 				ast.Inspect(fd.Body, func(n ast.Node) bool {
 					switch x := n.(type) {
 					case *ast.AssignStmt:
+						for i, lhs := range x.Lhs {
+							// r.f[k] = v with f a map or a slice: the object every holder of r.f sees is rewritten
+							if ix, ok := lhs.(*ast.IndexExpr); ok {
+								inPlaceWrite(ix.X, "index-store")
+							}
+							// other.g = r.f
+							if sel, ok := lhs.(*ast.SelectorExpr); ok && len(x.Lhs) == len(x.Rhs) {
+								if rid, _ := rootSel(sel); rid == nil || rid.Name != recv {
+									escape(x.Rhs[i], "stored-into "+exprString(lhs))
+								}
+							}
+						}
 						if x.Tok == token.DEFINE {
 							break
 						}
@@ -755,14 +1323,90 @@ func mutFacts(out string) {
 						}
 					case *ast.IncDecStmt:
 						lhsFact(x.X)
+						if ix, ok := x.X.(*ast.IndexExpr); ok {
+							inPlaceWrite(ix.X, "index-store")
+						}
+					case *ast.ReturnStmt:
+						for _, r := range x.Results {
+							escape(r, "returned")
+						}
+					case *ast.CompositeLit:
+						for _, el := range x.Elts {
+							if kv, ok := el.(*ast.KeyValueExpr); ok {
+								el = kv.Value
+							}
+							escape(el, "stored-into "+exprString(x.Type)+"{}")
+						}
 					case *ast.CallExpr:
+						// in-place rewriting builtins / library functions, and arguments handed to other code
+						calleeName := ""
+						switch f := x.Fun.(type) {
+						case *ast.Ident:
+							calleeName = f.Name
+						case *ast.SelectorExpr:
+							calleeName = f.Sel.Name
+						}
+						if id, ok := x.Fun.(*ast.Ident); ok && len(x.Args) > 0 {
+							switch id.Name {
+							case "clear", "delete", "copy":
+								inPlaceWrite(x.Args[0], id.Name)
+							case "append":
+								if se, ok := x.Args[0].(*ast.SliceExpr); ok && !fullSlice3(se) {
+									inPlaceWrite(se, "append-to-reslice")
+								}
+							}
+						}
+						if sel, ok := x.Fun.(*ast.SelectorExpr); ok && len(x.Args) > 0 && inPlaceFuncs[sel.Sel.Name] {
+							if pid, ok := sel.X.(*ast.Ident); ok {
+								if pn, ok := info.Uses[pid].(*types.PkgName); ok {
+									switch pn.Imported().Path() {
+									case "maps", "slices", "sort":
+										inPlaceWrite(x.Args[0], pn.Imported().Path()+"."+sel.Sel.Name)
+									}
+								}
+							}
+						}
+						if _, isConv := info.Types[x.Fun]; !(isConv && info.Types[x.Fun].IsType()) && !readOnlyFuncs[calleeName] {
+							for ai, a := range x.Args {
+								switch calleeName {
+								case "clear", "delete":
+									continue
+								case "copy":
+									continue // copy(dst, r.f) reads; copy(r.f, src) is the in-place write above
+								case "append":
+									if ai > 0 && x.Ellipsis.IsValid() {
+										continue // append(x, r.f...) copies the elements
+									}
+									if ai == 0 {
+										continue // r.f = append(r.f, …): growth of the own field
+									}
+								}
+								escape(a, "passed-to "+exprString(x.Fun))
+							}
+						}
+						// any method call on a package-level variable outside init
+						if sel, ok := x.Fun.(*ast.SelectorExpr); ok && !isInit {
+							var root *ast.Ident
+							if id, ok := sel.X.(*ast.Ident); ok {
+								root = id
+							} else if rid, _ := rootSel(sel.X); rid != nil {
+								root = rid
+							}
+							if root != nil {
+								if o := info.Uses[root]; o != nil && globals[o] {
+									if _, isMethod := info.Selections[sel]; isMethod && o.Type().String() != "error" {
+										facts = append(facts, fact{pkg: dir, fn: fn, kind: "global-call", what: exprString(sel.X) + "." + sel.Sel.Name + " : " + shortType(o.Type()), owner: root.Name})
+									}
+								}
+							}
+						}
 						// copy(r.f[...], …)
 						if id, ok := x.Fun.(*ast.Ident); ok && id.Name == "copy" && len(x.Args) == 2 && recv != "" {
 							if rid, fld := rootSel(x.Args[0]); rid != nil && rid.Name == recv {
-								facts = append(facts, fact{dir, fn, "recv-store", fld + " (copy)"})
+								facts = append(facts, mkFact(dir, fn, "recv-store", fld+" (copy)"))
 							} else if root := rootIdent(x.Args[0]); root != nil {
 								if fld, ok := alias[root.Name]; ok {
-									facts = append(facts, fact{dir, fn, "recv-store", fld + " (copy via " + root.Name + ")"})
+									facts = append(facts, mkFact(dir, fn, "recv-store", fld+" (copy via "+root.Name+")"))
 								}
 							}
 						}
@@ -775,7 +1419,7 @@ func mutFacts(out string) {
 							switch sel.Sel.Name {
 							case "Store", "LoadOrStore", "LoadAndDelete", "Delete", "Swap", "CompareAndSwap", "CompareAndDelete", "Clear", "Put", "Set":
 								if o := info.Uses[id]; o != nil && globals[o] {
-									facts = append(facts, fact{dir, fn, "global-store", id.Name + "." + sel.Sel.Name + "()"})
+									facts = append(facts, mkFact(dir, fn, "global-store", id.Name+"."+sel.Sel.Name+"()"))
 								}
 							}
 						}
@@ -790,24 +1434,30 @@ func mutFacts(out string) {
 						}
 						if recv != "" {
 							if rid, fld := rootSel(sel.X); rid != nil && rid.Name == recv {
-								facts = append(facts, fact{dir, fn, "recv-stateful-call", fld + "." + sel.Sel.Name + " : " + ts})
+								facts = append(facts, mkFact(dir, fn, "recv-stateful-call", fld+"."+sel.Sel.Name+" : "+ts))
 								break
 							}
 							if id, ok := sel.X.(*ast.Ident); ok {
 								if fld, ok := alias[id.Name]; ok {
-									facts = append(facts, fact{dir, fn, "recv-stateful-call", fld + "." + sel.Sel.Name + " : " + ts + " (via " + id.Name + ")"})
+									facts = append(facts, mkFact(dir, fn, "recv-stateful-call", fld+"."+sel.Sel.Name+" : "+ts+" (via "+id.Name+")"))
 									break
 								}
 							}
 						}
 						if id, ok := sel.X.(*ast.Ident); ok {
 							if o := info.Uses[id]; o != nil && globals[o] && !isInit {
-								facts = append(facts, fact{dir, fn, "global-stateful-call", id.Name + "." + sel.Sel.Name + " : " + ts})
+								facts = append(facts, mkFact(dir, fn, "global-stateful-call", id.Name+"."+sel.Sel.Name+" : "+ts))
 							}
 						}
 					}
 					return true
 				})
+			}
+		}
+		for _, e := range escapes {
+			if inPlace[e.owner] {
+				e.owner = ""
+				facts = append(facts, e)
 			}
 		}
 	})
